@@ -40,10 +40,11 @@ var kindTypes = map[string]reflect.Type{
 	"uint64": reflect.TypeOf(uint64(0)), "float32": reflect.TypeOf(float32(0)), "float64": reflect.TypeOf(float64(0)),
 	"string": reflect.TypeOf(""), "bool": reflect.TypeOf(false),
 	"iface": reflect.TypeOf((*interface{})(nil)).Elem(),
+	"ptrint": reflect.TypeOf((*int)(nil)), // element type only (C14: slices of pointers)
 }
 
 var kindCodes = map[string]int{"int": 0, "int8": 1, "int16": 2, "int32": 3, "int64": 4, "uint": 5, "uint8": 6, "uint16": 7,
-	"uint32": 8, "uint64": 9, "float32": 10, "float64": 11, "string": 12, "bool": 13, "iface": 14}
+	"uint32": 8, "uint64": 9, "float32": 10, "float64": 11, "string": 12, "bool": 13, "iface": 14, "ptrint": 15}
 
 func elemType(e string) reflect.Type {
 	if strings.HasPrefix(e, "[]") {
